@@ -36,6 +36,7 @@ def unwritten (s : State) : List Item := emUnwritten s.em ++ s.queue
 
 def emFailed : EmPc → Bool
   | .failed _ => true
+  | .latch _ => true
   | _ => false
 
 /-- an underlying write has failed (latched or about to be latched): nothing more will be written -/
